@@ -552,6 +552,45 @@ pub fn check(hdr: &str, lines: &[String], trace: &[(String, Vec<String>)], mon: 
             (Some((_, _, f)), Some((_, p))) => f == p && !outs.iter().any(|o| exec_cb(o)),
             _ => false,
         };
+        // independent reference for the restart bit: a processed WRITE that consists of exactly one g80v1 header
+        // (8- or 16-bit start/stop) whose range covers index 7 with the bit 0 must clear it, whatever else the range
+        // covers (the other indices are refused with PARAMETER_ERROR, they do not stop the clearing); and nothing
+        // but such a WRITE clears it
+        if let Some((_, _, f)) = &frag {
+            let single_g80 = |f: &[u8]| -> Option<bool> {
+                // Some(true): covers index 7 with bit 0; Some(false): a lone g80v1 header that does not clear
+                if f.len() < 5 || f[1] != 2 || f[2] != 0x50 || f[3] != 0x01 {
+                    return None;
+                }
+                let (start, stop, data) = match f[4] {
+                    0x00 if f.len() >= 7 => (f[5] as usize, f[6] as usize, &f[7..]),
+                    // (the 16-bit start/stop form is not supported for WRITE by the library: it is answered with
+                    // NO_FUNC_CODE_SUPPORT and changes nothing, which tells the master so: no expectation)
+                    _ => return None,
+                };
+                if stop < start || data.len() != (stop - start + 1 + 7) / 8 {
+                    return None;
+                }
+                if start <= 7 && 7 <= stop {
+                    let i = 7 - start;
+                    Some(data[i / 8] & (1 << (i % 8)) == 0)
+                } else {
+                    Some(false)
+                }
+            };
+            let processed_now = delivered_now && accepted_master && to_us_flag && !is_bc && !herr && !repeat_op && func == Some(2)
+                && !a.iter().any(|x| x.contains("malformed")) && outs.iter().any(|o| o.starts_with("tx "));
+            if processed_now {
+                match single_g80(f) {
+                    Some(true) if !clear_in_op => fail(mon, hdr, "restart_bit_interval", "", &format!("op {k}: WRITE of IIN1.7 = 0 ({}) did not clear the restart indication", hex(f))),
+                    Some(false) if clear_in_op => fail(mon, hdr, "restart_bit_interval", "", &format!("op {k}: restart indication cleared by a WRITE that does not write IIN1.7 = 0 ({})", hex(f))),
+                    _ => {}
+                }
+            }
+        }
+        if clear_in_op && func != Some(2) {
+            fail(mon, hdr, "restart_bit_interval", "", &format!("op {k}: restart indication cleared without a WRITE"));
+        }
         // did the unsolicited response that an unsolicited confirm of this op acknowledges report the pending
         // indication?  (it carried IIN1.0 and no broadcast was processed after it was written)
         let unsol_confirm_reports = unsol_reported_bc && !bc_since_unsol;
